@@ -20,7 +20,9 @@ func c03Operands(reduced bool) []*xnode {
 	all := []*xnode{lit("1", float64(1)), lit("2", float64(2)), lit("0", float64(0)), lit("2.5", 2.5), lit(`"a"`, "a"), lit(`"ab"`, "ab"), lit(`"1"`, "1"),
 		lit("true", true), lit("false", false), lit("null", nil), vr("n", float64(3)), vr("s", "a"), vr("l", l),
 		// quoted string literals are not constants: {{...}} is interpolated
-		{kind: xLit, src: `"^{{s}}"`, val: "^a"}, {kind: xLit, src: `"{{s}}b"`, val: "ab"}}
+		{kind: xLit, src: `"^{{s}}"`, val: "^a"}, {kind: xLit, src: `"{{s}}b"`, val: "ab"},
+		// composite operands: call result, list element, map field, negative index
+		{kind: xLit, src: "two()", val: float64(2)}, {kind: xLit, src: "l[0]", val: float64(1)}, {kind: xLit, src: "m.k", val: "a"}, {kind: xLit, src: "l[-1]", val: "a"}}
 	if reduced {
 		return []*xnode{all[0], all[1], all[2], all[4], all[7], all[9], all[12]}
 	}
@@ -33,6 +35,8 @@ func c03Setup(vs parser.Scope, erp *interpreter.ECALRuntimeProvider) {
 	vs.SetValue("n", float64(3))
 	vs.SetValue("s", "a")
 	vs.SetValue("l", []interface{}{float64(1), "a"})
+	vs.SetValue("m", map[interface{}]interface{}{"k": "a"})
+	vs.SetValue("two", &hfunc{func(args []interface{}) (interface{}, error) { return float64(2), nil }})
 }
 
 func c03Compare(c *Ctx, src string, want rres) {
@@ -111,7 +115,7 @@ func c03Check(c *Ctx, tree *xnode, flat []ftok) {
 
 func init() {
 	register(&Part{Prop: "C03", Name: "operator-pairs", Quick: 16, Thor: 32,
-		Desc: "all x op y over 15 operands (incl. two interpolating string literals) x 19 operators; all x op1 y op2 z unparenthesised (tree from the stated precedence table) and in both parenthesisations over 7 operands incl. every kind (number, zero, string, boolean, null, list); prefix -, +, not on operands and in front of pairs; each in 2-3 layouts (spaces, newline after each operator, redundant parentheses around every sub-term); thorough adds all operator triples over 4 operands",
+		Desc: "all x op y over 19 operands (incl. two interpolating string literals, a call result, list elements, a map field) x 19 operators; all x op1 y op2 z unparenthesised (tree from the stated precedence table) and in both parenthesisations over 7 operands incl. every kind (number, zero, string, boolean, null, list); prefix -, +, not on operands and in front of pairs; each in 2-3 layouts (spaces, newline after each operator, redundant parentheses around every sub-term); thorough adds all operator triples over 4 operands",
 		Rule: "odometer over operands x operators x forms x layouts; non-trivial = the reference defines the result (value or error); Unspecified cases are counted as skipped",
 		Run: func(c *Ctx) {
 			ops := c03Operands(false)
